@@ -7,10 +7,12 @@ from . import ref
 from .world import WFError, components
 
 
-def compare_joint(B, W, pre, post, targets, transform, label, renorm=False, observe=True):
+def compare_joint(B, W, pre, post, targets, transform, label, renorm=False, observe=True, operator=None, headroom=0):
     """For every component of the common coarsening of the pre/post block partitions:
     post joint state == transform(pre joint state) if the component contains the targets, else == pre.
-    transform(rho, dims, pos) -> rho' (unnormalised when renorm=True: compared cross-multiplied by the trace)."""
+    transform(rho, dims, pos) -> rho' (unnormalised when renorm=True: compared up to the trace).
+    If `operator(dims, pos) -> O` is given the map is rho -> (O x 1) rho (O x 1)^+ and, when every block of the
+    component is held as label/vector, the comparison is done on state vectors (up to a global phase)."""
     ok = True
     comps = components(pre, post, force_together=targets)
     tset = {id(t) for t in targets}
@@ -20,27 +22,63 @@ def compare_joint(B, W, pre, post, targets, transform, label, renorm=False, obse
         if not all(id(m) in live_post and id(m) in live_pre for m in comp):
             raise WFError("compare_joint: component has subsystems that are not live in both snapshots: "
                           + str([W.name_of(m) for m in comp]))
+        names = [W.name_of(m) for m in comp]
+        has_t = any(id(m) in tset for m in comp)
+        pos = [[id(m) for m in comp].index(id(t)) for t in targets] if has_t else None
+        if pre.is_pure_level(comp) and post.is_pure_level(comp) and (operator is not None or not has_t):
+            psi0, d0 = pre.joint_vector(comp)
+            psi1, d1 = post.joint_vector(comp)
+            big = [max(a, b) for a, b in zip(d0, d1)]
+            if has_t and headroom:
+                for p_ in pos:
+                    big[p_] += headroom
+            if list(d0) != big or list(d1) != big:
+                psi0, psi1, dims = _pad_vec(psi0, d0, big), _pad_vec(psi1, d1, big), big
+            else:
+                dims = d0
+            if has_t:
+                w = ref.apply_op_vec(psi0, dims, pos, operator(dims, pos))
+                r = B.require_parallel(psi1, w, f"{label}: joint state of {names}", "state-map", same_norm=not renorm)
+            else:
+                r = B.require_parallel(psi1, psi0, f"{label}: bystander component {names} changed", "bystander",
+                                       same_norm=True)
+            if observe and hasattr(B, "observed"):
+                B.observed["postvec:" + ",".join(names)] = psi1
+            ok = ok and (r is not False)
+            continue
         rho0, dims = pre.joint(comp)
         rho1, dims1 = post.joint(comp)
-        names = [W.name_of(m) for m in comp]
-        if list(dims) != list(dims1):
-            # dimension changes (automatic resize): pad the smaller one with zeros
-            rho0, rho1, dims = _pad_to_common(rho0, dims, rho1, dims1)
-        if any(id(m) in tset for m in comp):
-            pos = [[id(m) for m in comp].index(id(t)) for t in targets]
-            exp = transform(rho0, dims, pos)
-            if renorm:
-                tr = ref.trace(exp)
-                diffs = [rho1 * tr - exp]
+        big = [max(a, b) for a, b in zip(dims, dims1)]
+        if has_t and headroom:
+            for p_ in pos:
+                big[p_] += headroom
+        if list(dims) != big or list(dims1) != big:
+            # dimension changes (automatic resize) / headroom: pad with zeros
+            rho0, rho1, dims = _pad(rho0, dims, big), _pad(rho1, dims1, big), big
+        if has_t:
+            if operator is not None:
+                exp = ref.apply_op(rho0, dims, pos, operator(dims, pos))
             else:
-                diffs = [rho1 - exp]
-            r = B.require_zero(diffs, f"{label}: joint state of {names}", "state-map")
+                exp = transform(rho0, dims, pos)
+            if renorm:
+                r = B.require_equal_normalised(rho1, exp, f"{label}: joint state of {names}", "state-map")
+            else:
+                r = B.require_zero([rho1 - exp], f"{label}: joint state of {names}", "state-map")
         else:
             r = B.require_zero([rho1 - rho0], f"{label}: bystander component {names} changed", "bystander")
         if observe and hasattr(B, "observed"):
             B.observed["post:" + ",".join(names)] = rho1
         ok = ok and (r is not False)
     return ok
+
+
+def _pad_vec(psi, dims, new):
+    if list(dims) == list(new):
+        return psi
+    T = psi.reshape(list(dims))
+    out = ref.zeros(tuple(new), psi)
+    out[tuple(slice(0, d) for d in dims)] = T
+    return out.reshape(-1, 1)
 
 
 def _pad_to_common(rho0, dims0, rho1, dims1):
@@ -83,13 +121,19 @@ def check_wf(B, W, snap, label="wf", unit=True, numeric=True):
                 raise WFError(f"{label}: {names} has level {b.level!r}")
             if b.level == EL.Label and hasattr(b.array, "shape") and not isinstance(b.array, h.PolarizationLabel):
                 raise WFError(f"{label}: {names} claims level Label but holds an array")
-        rho = snap.block_rho(b)  # raises WFError on shape/level mismatch
-        for m in b.members:
-            if isinstance(m, h.Fock) and b.level != EL.Label:
-                pass  # dimensions == axis length is implied by the shape check in block_density
+        if b.level == EL.Matrix or b.level == EL.Label:
+            rho = snap.block_rho(b)  # raises WFError on shape/level mismatch
+            tr = ref.trace(rho) if b.level == EL.Matrix else None
+        else:
+            from .world import block_vector
+
+            psi = block_vector(W, b)  # raises WFError on shape/level mismatch
+            tr = ref.const(0, psi)
+            for x in psi.reshape(-1):
+                tr = tr + x * (x.conjugate() if hasattr(x, "conjugate") else x)
         if numeric and b.level != EL.Label:
             if unit:
-                r = B.require_zero([ref.trace(rho) - ref.const(1, rho)], f"{label}: unit trace/norm of {names}", "normalisation")
+                r = B.require_zero([tr - ref.const(1, B.like())], f"{label}: unit trace/norm of {names}", "normalisation")
                 ok = ok and (r is not False)
             if b.level == EL.Matrix:
                 r = B.require_zero([rho - ref.dagger(rho)], f"{label}: hermiticity of {names}", "hermiticity")
